@@ -202,6 +202,14 @@ def manifests(draw):
     return entries
 
 
+def _is_escaped(text):
+    """No HTML metacharacter in text other than as part of an entity."""
+    rest = text
+    for entity in ('&amp;', '&lt;', '&gt;', '&quot;', '&#x27;', '&#39;'):
+        rest = rest.replace(entity, '')
+    return not any(c in rest for c in '<>&"\'')
+
+
 def effective_path(entry):
     path = entry.get('path', '')
     if not path:
@@ -461,6 +469,13 @@ class Site:
                         out.append(('escape-title',
                                     'page got title {!r} for {!r}'.format(
                                         script['title'], title)))
+                elif not _is_escaped(script['title']):
+                    # derived from the file name or path: whatever the exact
+                    # wording, no raw metacharacter may reach the page
+                    out.append(('escape-derived-title',
+                                'page got the derived title {!r} for file '
+                                '{!r}'.format(script['title'],
+                                              entry['file_name'])))
                 elif 'path' not in entry:
                     base = effective_path(entry)
                     words = base.replace('_', ' ').replace('-', ' ').split(' ')
